@@ -1444,6 +1444,7 @@ pub mod simfs {
     /// read / open fails or delivers torn or corrupt content
     fn content_with_hard_fault(d: &Arc<Vec<u8>>) -> io::Result<Arc<Vec<u8>>> {
         let fault = world::with(|w| {
+            w.decide_read_fault();
             let idx = w.reads_seen;
             w.reads_seen += 1;
             match w.hard {
@@ -1464,7 +1465,15 @@ pub mod simfs {
         let Some(h) = fault else { return Ok(d.clone()) };
         let mut data = (**d).clone();
         match h.kind {
-            world::HardKind::ReadEio => return Err(io::Error::new(io::ErrorKind::Other, "simulated EIO")),
+            world::HardKind::ReadEio => {
+                world::with(|w| {
+                    if w.gating_fault {
+                        w.stats.read_faults_injected += 1;
+                    }
+                });
+                // EIO
+                return Err(io::Error::from_raw_os_error(5));
+            }
             world::HardKind::ReadEnoent => return Err(io::Error::new(io::ErrorKind::NotFound, "simulated ENOENT")),
             world::HardKind::Truncated => {
                 let n = if data.is_empty() { 0 } else { (h.salt % data.len() as u64) as usize };
